@@ -300,3 +300,97 @@ Proof.
     cbn [horner] in Hip. destruct (digit_val c0) as [dv|] eqn:D; [|discriminate Hip].
     cbn [app] in *. destruct c0; try (vm_compute in D; discriminate D); exact Body.
 Qed.
+
+(* ------------------------------------------------------------------ SETRANGE: every byte of the result *)
+Lemma nth_firstn_lt {A} (l : list A) : forall n i x, (i < n)%nat -> nth i (firstn n l) x = nth i l x.
+Proof.
+  induction l as [|a l IH]; intros n i x L; [rewrite firstn_nil; reflexivity|].
+  destruct n as [|n]; [lia|]. destruct i as [|i]; [reflexivity|]. cbn. apply IH. lia.
+Qed.
+
+Lemma nth_skipn_add {A} (l : list A) : forall n i x, nth i (skipn n l) x = nth (n + i) l x.
+Proof.
+  induction l as [|a l IH]; intros n i x; [rewrite skipn_nil; destruct i, n; reflexivity|].
+  destruct n as [|n]; [reflexivity|]. cbn. apply IH.
+Qed.
+
+Lemma nth_repeat_lt {A} (a : A) : forall m i x, (i < m)%nat -> nth i (repeat a m) x = a.
+Proof. induction m as [|m IH]; intros i x L; [lia|]. destruct i as [|i]; [reflexivity|]. cbn. apply IH. lia. Qed.
+
+(* the value SETRANGE writes, byte by byte (0 <= off; indexes as nat):
+   below the offset the old bytes, then ZERO bytes up to the offset, then the argument, then what the
+   old value had beyond the written range; its length is max (len old) (off + len v) *)
+Lemma setrange_of_bytes old off v (x : byte) : 0 <= off ->
+  List.length (setrange_of old off v) = Nat.max (List.length old) (Z.to_nat off + List.length v) /\
+  forall i : nat,
+    ((i < Z.to_nat off)%nat -> (i < List.length old)%nat -> nth i (setrange_of old off v) x = nth i old x) /\
+    ((i < Z.to_nat off)%nat -> (List.length old <= i)%nat -> nth i (setrange_of old off v) x = nul) /\
+    ((Z.to_nat off <= i)%nat -> (i < Z.to_nat off + List.length v)%nat ->
+       nth i (setrange_of old off v) x = nth (i - Z.to_nat off) v x) /\
+    ((Z.to_nat off + List.length v <= i)%nat -> (i < List.length old)%nat ->
+       nth i (setrange_of old off v) x = nth i old x).
+Proof.
+  intros Ho. unfold setrange_of, zlength.
+  set (o := Z.to_nat off). set (lo := List.length old). set (lv := List.length v).
+  replace (Z.to_nat (off - Z.of_nat lo)) with (o - lo)%nat by lia.
+  replace (Z.to_nat (off + Z.of_nat lv)) with (o + lv)%nat by lia.
+  set (X := old ++ repeat nul (o - lo)).
+  assert (LX : (o <= List.length X)%nat) by (unfold X; rewrite app_length, repeat_length; fold lo; lia).
+  assert (LF : List.length (firstn o X) = o) by (rewrite firstn_length; lia).
+  split.
+  - rewrite !app_length, LF, skipn_length. fold lo lv. lia.
+  - intros i. repeat split.
+    + intros L1 L2. rewrite app_nth1 by lia. rewrite nth_firstn_lt by exact L1.
+      unfold X. rewrite app_nth1 by (fold lo; lia). reflexivity.
+    + intros L1 L2. rewrite app_nth1 by lia. rewrite nth_firstn_lt by exact L1.
+      unfold X. rewrite app_nth2 by (fold lo; lia). fold lo. apply nth_repeat_lt. lia.
+    + intros L1 L2. rewrite app_nth2 by lia. rewrite LF. rewrite app_nth1 by (fold lv; lia). reflexivity.
+    + intros L1 L2. rewrite app_nth2 by lia. rewrite LF. rewrite app_nth2 by (fold lv; lia). fold lv.
+      rewrite nth_skipn_add. f_equal. lia.
+Qed.
+
+Section NameSetrange.
+  Variables (rd : reading) (F : floatlib) (V : kview) (now : Z) (c : bytes) (r : reply) (V' : kview).
+  Lemma ref_step_setrange k o v : lower c = B "setrange" -> ref_step rd F V now [c; k; o; v] r V' ->
+    ref_setrange rd V k o v r V'.
+  Proof. intros E H; unfold ref_step in H; rewrite E in H; exact H. Qed.
+End NameSetrange.
+
+(* SETRANGE past the end of the value (or on a missing key): whatever the executor does with its
+   buffers, every byte between the old length and the offset reads as 0x00, the old bytes and the
+   argument are in place, the length is offset + len v, the deadline is kept *)
+Theorem setrange_gap_is_zero d now nowms c k o v hint off old t r d' :
+  db_wf d -> lower c = B "setrange" -> atoi64 o = Some off ->
+  (view d now k = Some (VStr old, t) \/ (view d now k = None /\ old = [] /\ t = None)) ->
+  zlength old <= off -> v <> [] -> off + zlength v <= max_len ->
+  exec d now nowms [c; k; o; v] hint = (r, d') ->
+  exists new, view d' now k = Some (VStr new, t) /\ r = RInt (off + zlength v) /\
+    zlength new = off + zlength v /\
+    forall (i : nat) (x : byte),
+      ((i < List.length old)%nat -> nth i new x = nth i old x) /\
+      ((List.length old <= i)%nat -> (i < Z.to_nat off)%nat -> nth i new x = nul) /\
+      ((Z.to_nat off <= i)%nat -> (i < Z.to_nat off + List.length v)%nat -> nth i new x = nth (i - Z.to_nat off) v x).
+Proof.
+  intros W N A HK L NE LM H.
+  pose proof (zlength_nonneg old) as P0. assert (Ho : 0 <= off) by lia.
+  pose proof (strings_step_refines _ _ _ _ _ _ _ W H) as S.
+  apply (ref_step_setrange _ _ _ _ _ _ _ _ _ _ N) in S. unfold ref_setrange in S. rewrite A in S.
+  replace (off <? 0) with false in S by lia.
+  assert (NV : (zlength v =? 0) = false).
+  { destruct v; [congruence|]. unfold zlength. cbn [List.length]. lia. }
+  assert (G : r = RInt (zlength (setrange_of old off v)) /\
+              veq (view d' now) (upd (view d now) k (Some (VStr (setrange_of old off v), t)))).
+  { assert (C : (off + zlength v <=? max_len) = true) by (apply Z.leb_le; exact LM).
+    unfold slot_of in S. destruct HK as [E|(E & -> & ->)]; rewrite E in S; cbv zeta in S;
+      rewrite NV, C in S; exact S. }
+  destruct G as (R & U).
+  destruct (setrange_of_bytes old off v "000"%byte Ho) as (Len & _).
+  assert (ZL : zlength (setrange_of old off v) = off + zlength v) by (unfold zlength in *; lia).
+  exists (setrange_of old off v). split; [rewrite U; apply upd_same|]. split; [rewrite R, ZL; reflexivity|].
+  split; [exact ZL|]. intros i x.
+  destruct (setrange_of_bytes old off v x Ho) as (_ & HB). destruct (HB i) as (B1 & B2 & B3 & _).
+  unfold zlength in L. repeat split.
+  - intros L1. apply B1; lia.
+  - intros L1 L2. apply B2; lia.
+  - exact B3.
+Qed.
